@@ -103,7 +103,9 @@ func zzSetup(db *DB, kind int) {
 			if err != nil {
 				return err
 			}
-			for i := 0; i < 4; i++ {
+			// six keys: a node is only split when it has more than 2*MinKeysPerPage keys, so this is the
+			// smallest nested bucket with a branch root and two leaves
+			for i := 0; i < 6; i++ {
 				if err := pg.Put([]byte{'p', byte('0' + i)}, zzVal(vs, byte('p'))); err != nil {
 					return err
 				}
